@@ -158,3 +158,35 @@ for _u in ("deg", "rad"):
         materialize=True,
         props=["C09", "C08", "C15"], runtime=False,
     )
+
+
+# ------------------------------------------------------------------------------------------------ cumulative sampler (C19)
+# "maps a uniform deviate u to the linear interpolation of the grid abscissae against the normalised cumulative distribution":
+# proved for every deviate sequence the generator can return, modularly against the proved contract of stat.interplin
+contract(
+    "esutil.random.Generator._genrand_accum",
+    params=dict(self="obj:Generator{rng:opaque:rng,xvals:arr[real],pcum:arr[real]}", numrand="nat"), returns="arr[real]",
+    requires={"table": "len(self.pcum) >= 2 and len(self.xvals) == len(self.pcum)",
+              "cumulative-distribution-strictly-increasing (a density without zero stretches)":
+                  "all(self.pcum[i] < self.pcum[j] for i in range(0, len(self.pcum)) for j in range(i + 1, len(self.pcum)))"},
+    ret_post={"return#0": {
+        "one-value-per-requested-point": "len(result) == numrand and len(urand) == numrand",
+        "deviates-are-uniform-on-[0,1]": "all(0 <= urand[k] and urand[k] <= 1 for k in range(0, numrand))",
+        "each-deviate-is-mapped-through-the-piecewise-linear-inverse-of-the-cumulative-distribution":
+            "all(not ((m == 0 or self.pcum[m] < urand[k]) and (m == len(self.pcum) - 2 or urand[k] <= self.pcum[m + 1]))"
+            "    or approx(result[k], (urand[k] - self.pcum[m]) * (self.xvals[m + 1] - self.xvals[m]) / (self.pcum[m + 1] - self.pcum[m]) + self.xvals[m])"
+            "    for k in range(0, numrand) for m in range(0, len(self.pcum) - 1))",
+    }},
+    ensures={"tables-untouched": "all(self.pcum[i] == old(self.pcum[i]) and self.xvals[i] == old(self.xvals[i]) for i in range(0, len(self.pcum)))"},
+    abstract=["mul", "div"],
+    props=["C19", "C15"], runtime=False,
+)
+
+contract(
+    "esutil.random.random_indices",
+    params=dict(imax="nat", nrand="nat", unique="bool", rng="opaque:rng", seed="none"), returns="arr[int]",
+    requires={"enough-values-for-distinct-draws": "not unique or nrand <= imax"},
+    ensures={"requested-number-in-range": "len(result) == nrand and all(0 <= result[k] and result[k] < imax for k in range(0, nrand))",
+             "uniqueness-option-honoured": "not unique or all(result[a] != result[b] for a in range(0, nrand) for b in range(a + 1, nrand))"},
+    props=["C19"], runtime=False,
+)
